@@ -248,7 +248,14 @@ func (w *World) forgeProofStep() bool {
 	w.action("forge-proof")
 	w.stats.Fault("byz.forged-block-proof")
 	w.use("byz.forged-block-proof/" + name)
+	// both modes, in a tape-chosen order, on the same node: an answer must not depend on what was asked before
 	w.judgeProof(victim, offered, raw, h, soft, name)
+	if w.viol == nil {
+		w.judgeProof(victim, offered, raw, h, !soft, name)
+	}
+	if w.viol == nil && w.ch.Pick("forge-again", 3) == 2 {
+		w.judgeProof(victim, offered, raw, h, soft, name)
+	}
 	return true
 }
 
